@@ -53,7 +53,11 @@ type outSpec struct {
 	streams [][]byte   // one per task
 	chunks  [][][]byte // the splitting of each stream into write calls
 	format  string
+	names   []string // task names (nil: w0, w1, ...)
 }
+
+// task names a prefix has to carry verbatim: format verbs, separators, template and quoting characters
+var oddTaskNames = []string{"cover 100%", "fmt%s", "lint%d:all", "%", "100%% sure", "tab\there", "[x]", "{{.y}}", "back\\slash", "a: b", "ünï", "q\"uote", "%!s(MISSING)", "%v%v"}
 
 func hexList(chunks [][]byte) string {
 	p := make([]string, len(chunks))
@@ -91,6 +95,9 @@ func outCase(col *Collector, s outSpec, tag string) {
 	for i := range tasks {
 		tasks[i] = task.NewTask()
 		tasks[i].Name = fmt.Sprintf("w%d", i)
+		if s.names != nil {
+			tasks[i].Name = s.names[i]
+		}
 		o, err := output.NewTaskOutput(tasks[i], s.format, sink, sink)
 		if err != nil {
 			cs.Fail, cs.Sig = err.Error(), "c19-setup"
@@ -123,6 +130,10 @@ func outCase(col *Collector, s outSpec, tag string) {
 		total += len(st)
 	}
 	cs.Replay = fmt.Sprintf("output format=%s writers=%d bytes=%d chunks(w0)=%s", s.format, n, total, clipStr(hexList(s.chunks[0]), 600))
+	if s.names != nil {
+		cs.Replay += fmt.Sprintf(" task names %q", s.names)
+		cs.Tags = append(cs.Tags, "odd-task-names")
+	}
 	if pan != "" {
 		cs.Fail, cs.Sig = "output layer panicked: "+pan, "c19-panic"
 		col.Add(cs)
@@ -419,6 +430,12 @@ func runC19(col *Collector, tier string, seed int64) {
 			st := genStream(rng, ansi, maxLine)
 			s.streams = append(s.streams, st)
 			s.chunks = append(s.chunks, chunkings(rng, st, avoid))
+		}
+		if i%5 == 1 {
+			off := rng.Intn(len(oddTaskNames))
+			for w := 0; w < writers; w++ {
+				s.names = append(s.names, oddTaskNames[(off+w)%len(oddTaskNames)])
+			}
 		}
 		specs = append(specs, s)
 		tags = append(tags, map[bool]string{true: "ansi", false: "plain"}[ansi])
